@@ -101,4 +101,37 @@ def raceSet (eq : Fields → Fields → Bool) (S : Schema) (ty : Nat) (u : Updat
       else ⟨.aborted, cur⟩
   | c => ⟨.err c, stored⟩                              -- before GetAndUpdate: nobody has run yet
 
+/-- The window has two halves: `pre` are the writes of others committed before `writer.Merge` runs
+(after the read, in the expected-check, in `InterceptBefore`), `post` the ones after it (in
+`InterceptAfter`, before the lock is taken again).  A panic inside `Merge` unwinds the call: the
+places of the second half are never reached, so only `pre` has been committed. -/
+def raceSetPhased (eq : Fields → Fields → Bool) (S : Schema) (ty : Nat) (u : Updater)
+    (stored src : Fields) (pre post : List Rival) : RaceResult :=
+  match merge S ty u stored src with
+  | none => raceSet eq S ty u stored src pre
+  | some _ => raceSet eq S ty u stored src (pre ++ post)
+
+/-- Unless `Merge` panics the halves do not matter: it is `raceSet` on all rivals in window order. -/
+theorem raceSetPhased_eq (eq : Fields → Fields → Bool) (S : Schema) (ty : Nat) (u : Updater)
+    (stored src : Fields) (pre post : List Rival) (h : merge S ty u stored src ≠ none) :
+    raceSetPhased eq S ty u stored src pre post = raceSet eq S ty u stored src (pre ++ post) := by
+  unfold raceSetPhased
+  cases hm : merge S ty u stored src with
+  | none => exact absurd hm h
+  | some r => rfl
+
+/-- A rejected write never opens the window, whatever the halves hold. -/
+theorem raceSetPhased_rejected (eq : Fields → Fields → Bool) (S : Schema) (ty : Nat) (u : Updater)
+    (stored src : Fields) (pre post : List Rival) (h : validate S ty u ≠ .ok) :
+    (raceSetPhased eq S ty u stored src pre post).stored = stored := by
+  unfold raceSetPhased
+  have hr : ∀ rs, (raceSet eq S ty u stored src rs).stored = stored := by
+    intro rs
+    unfold raceSet
+    cases hv : validate S ty u with
+    | ok => exact absurd hv h
+    | invalidArgument => rfl
+    | internal => rfl
+  cases merge S ty u stored src <;> exact hr _
+
 end ScVerif.C05
